@@ -633,6 +633,11 @@ class EnumConverter(Converter):
         if collections.is_array(value):
             values = value
         elif isinstance(value, str):
+            # Exact lexical match first, xs:string enumerations preserve whitespace
+            for member in cast(type[Enum], data_type):
+                if isinstance(member.value, str) and member.value == value:
+                    return member
+
             value = value.strip()
             values = value.split()
         else:
